@@ -151,7 +151,8 @@ Proof.
   pose proof Hsl as Hsl0. apply Forall_cons_iff in Hsl0. destruct Hsl0 as [[Hn0 Hc0] _]. cbn [fst snd] in Hn0, Hc0.
   eapply sat_bind.
   { apply (per_scan_bounds_lemma (f_width c) (f_height c) nc lossless _ u n0 cur0 (f_restart_interval c) (f_restart_in_rows c) Hwf Hn0 Hc0). }
-  intros i0 Hi0. apply sat_ret. unfold started_wf. cbn [t_stale t_ncomp t_setup t_scan0 t_lossless].
+  intros i0 Hi0. eapply sat_seq with (P := True). { apply sat_guard; intros _; exact I. } intros _.
+  apply sat_ret. unfold started_wf. cbn [t_stale t_ncomp t_setup t_scan0 t_lossless].
   split; [|split; [|split]].
   - rewrite <- Esl. apply stale_false.
     + rewrite Esl. exact Hsl.
